@@ -136,6 +136,18 @@ def scenarios(tier, seed):
                     kw = {'error': 0x101, 'edcp': 7} if v == 'refuse_respond' else {}
                     out.append({'cfg': {'seed': sd}, 'ops': [fail(cmd, v, n, **kw)] + [dict(o) for o in recover]})
                     out.append({'cfg': {'seed': sd, 'client': 'query'}, 'ops': [fail(cmd, v, n, **kw), ok(cmd, n)]})
+    # (1b) the same with every party on a thread of its own and a blocking driver (frame on the bus when the call returns /
+    #      at once with the call returning later): answers are handled while the call that triggered them has not returned
+    for sd in (None, 0xA55A):
+        kinds = ['refuse_proceed', 'refuse_respond', 'absent'] + (['wrongkey'] if sd is not None else [])
+        for cmd in ('read', 'write'):
+            for n in (4, 9):
+                for v in kinds:
+                    kw = {'error': 0x101, 'edcp': 7} if v == 'refuse_respond' else {}
+                    for cost in (0.3e-3, 3e-3):
+                        for vis in (0.0, 1.0):
+                            out.append({'cfg': {'seed': sd, 'base_lat': 0.2e-3, 'send_cost': cost, 'send_visible': vis, 'rx_threads': True},
+                                        'ops': [fail(cmd, v, n, **kw), ok('read'), ok('write', 9)]})
     # (2) every defined error code and three undefined ones x EDCP {6, 7, other}
     for cmd in ('read', 'write'):
         for err in ERRORS_DEFINED + ERRORS_UNDEFINED:
